@@ -960,6 +960,34 @@ async fn handle_new_connection_established(
         tracing::warn!(handle = core_handle, conn_uri = %endpoint_uri_from_event, "ViaSca received unexpected pre-existing ISocketConnection. Ignoring.");
       }
 
+      // The session may already have died (peer closed right after the transport connected) and
+      // its stop notification may have overtaken this registration. Do not install the dead
+      // connection; an outbound one is retried with the usual back-off.
+      let already_stopped = core_arc
+        .core_state
+        .write()
+        .sessions_stopped_before_registration
+        .remove(&sca_handle_id);
+      if already_stopped {
+        let mut state = core_arc.core_state.write();
+        let options = state.options.clone();
+        let reconnect_enabled = options.reconnect_ivl.map_or(false, |d| !d.is_zero());
+        if is_outbound_this_core_initiated && reconnect_enabled {
+          let base = options.reconnect_ivl.unwrap_or(std::time::Duration::from_millis(100));
+          let max = options.reconnect_ivl_max.unwrap_or(std::time::Duration::from_secs(60));
+          let recon_state = state.reconnect_states.entry(target_endpoint_uri_from_event.clone()).or_default();
+          let delay = recon_state.on_connection_failure(base, max);
+          tracing::info!(
+            handle = core_handle,
+            uri = %target_endpoint_uri_from_event,
+            attempt = recon_state.current_attempts,
+            next_attempt_in = ?delay,
+            "Session stopped before registration. Scheduled for reconnect via passive backoff."
+          );
+        }
+        return Ok(());
+      }
+
       let (tx_core_to_sca, rx_sca_from_core) =
         fibre::mpsc::bounded_async::<FrameBatch>(core_arc.core_state.read().options.sndhwm.max(1));
 
